@@ -20,6 +20,8 @@ import (
 //    -> seq=<canonical system calls in the destination directory> res=<code> dst=<state> tmp=<state> reader=<ok|BAD>
 // kill  <old> <umask> <mode> <kind> <pieces> <fault> <cbmode> <name> <j>     (SIGKILL on entry to the j-th <name> call, 1-based)
 //    -> seq=<calls completed before the kill> dst=<state> tmp=<state> reader=<ok|BAD>
+// fault also: exist:<k> (the first k openat(O_EXCL) of CreateTemp fail with EEXIST) | open:<ERR> (the first one fails
+// otherwise); cbmode may be followed by +u:<ERR> (the unlinkat of the cleanup path fails).
 // kind: wf | commit | abort;  fault: none | cb:<j> | panic:<j> | write:<k>:<ERR> | close:<ERR> | rename:<ERR>;
 // cbmode: p | s | k (what the callback does with a Write error: propagate / swallow and stop / swallow and go on);
 // name: open | write | close | rename | unlink
@@ -136,6 +138,42 @@ func enumerate(s scenario, full bool, emit func(string)) {
 				kills(f, nw)
 			}
 		}
+	}
+	// the loop of CreateTemp (collisions injected as EEXIST on the first k openat(O_EXCL); another error at once) and a
+	// failing unlinkat in every cleanup path — for the scenarios that stand for their class
+	rep := s.pieces == "1000x70" || s.pieces == "1" || s.kind != "wf" || s.pieces == strconv.Itoa(bufSize()+1) && s.old != "absent"
+	if full || rep {
+		ks := []int{1, 2}
+		if s.pieces == "1000x70" || s.kind == "abort" || full && s.pieces == "1" {
+			ks = append(ks, 999, 1000)
+		}
+		for _, k := range ks {
+			emit("trace " + s.String() + " exist:" + strconv.Itoa(k) + " p")
+		}
+		emit("trace " + s.String() + " open:" + nextErr() + " p")
+		u := "p+u:" + nextErr()
+		var paths []string
+		if s.kind == "wf" {
+			paths = []string{"cb:0", "cb:" + strconv.Itoa(np), "panic:" + strconv.Itoa(np/2), "close:EIO", "rename:ENOSPC"}
+			if nw > 0 {
+				paths = append(paths, "write:0:EIO", "write:"+strconv.Itoa(nw-1)+":ENOSPC")
+			}
+		} else if s.kind == "commit" {
+			paths = []string{"close:EIO", "rename:ENOSPC"}
+			if nw > 0 {
+				paths = append(paths, "write:0:EIO")
+			}
+		} else {
+			paths = []string{"none", "close:EACCES"}
+		}
+		for _, f := range paths {
+			emit("trace " + s.String() + " " + f + " " + u)
+		}
+		emit("kill " + s.String() + " exist:2 p write 1")
+		emit("kill " + s.String() + " exist:2 p rename 1")
+		emit("kill " + s.String() + " exist:2 p rename 2")
+		emit("kill " + s.String() + " " + paths[0] + " " + u + " close 1")
+		emit("kill " + s.String() + " " + paths[0] + " " + u + " unlink 1")
 	}
 }
 
@@ -321,7 +359,11 @@ func parseTrace(text, dir, dst string) []call {
 					}
 				}
 				if len(qs) > 0 {
-					if flags == "O_RDWR|O_CREAT|O_EXCL|O_CLOEXEC" {
+					if flags == "O_RDWR|O_CREAT|O_EXCL|O_CLOEXEC" && suffix == "!EEXIST" && qs[0][1] != dst &&
+						filepath.Dir(qs[0][1]) == dir {
+						// a collision of CreateTemp: every attempt has another random name, none is remembered
+						c.canon = "create tmp* " + mode
+					} else if flags == "O_RDWR|O_CREAT|O_EXCL|O_CLOEXEC" {
 						c.canon = "create " + nameOf(qs[0][1]) + " " + mode
 					} else {
 						c.canon = "open " + nameOf(qs[0][1]) + " " + flags + " " + mode
@@ -352,6 +394,9 @@ func parseTrace(text, dir, dst string) []call {
 					c.canon = "unlink " + nameOf(qs[0][1])
 					if strings.Contains(rest, "AT_REMOVEDIR") {
 						c.canon = "rmdir " + nameOf(qs[0][1])
+						if suffix != "" { // os.Remove's second try after a failed unlink: no effect, not part of the model
+							c.canon = ""
+						}
 					}
 				}
 			default:
@@ -489,8 +534,23 @@ func (traceArea) Run(line string) string {
 	var injects []string
 	wantInj := "" // kind of the call that must carry the (INJECTED) mark, and its index among the directory's calls
 	wantIdx := 0
+	wantHi := 0 // exist:<k> marks the calls wantIdx..wantHi
+	unlinkErr := ""
+	if i := strings.Index(cbMode, "+u:"); i >= 0 { // the unlink of the cleanup path fails
+		unlinkErr = cbMode[i+3:]
+		cbMode = cbMode[:i]
+		injects = append(injects, fmt.Sprintf("%s:error=%s:when=%d", sys.name["unlink"], unlinkErr, sys.offset["unlink"]+1))
+	}
 	fp := strings.Split(fault, ":")
 	switch fp[0] {
+	case "exist": // the first k openat(O_EXCL) of CreateTemp fail with EEXIST
+		if k := atoi(fp[1]); k > 0 {
+			wantInj, wantIdx, wantHi = "open", 1, k
+			injects = append(injects, fmt.Sprintf("%s:error=EEXIST:when=%d..%d", sys.name["open"], sys.offset["open"]+1, sys.offset["open"]+k))
+		}
+	case "open":
+		wantInj, wantIdx = "open", 1
+		injects = append(injects, fmt.Sprintf("%s:error=%s:when=%d", sys.name["open"], fp[1], sys.offset["open"]+1))
 	case "cb":
 		cbFail = atoi(fp[1])
 	case "panic": // the child dies of the unrecovered panic (exit status 2) after the deferred Close has run
@@ -525,7 +585,10 @@ func (traceArea) Run(line string) string {
 	out := ""
 	for attempt := 0; attempt < 3; attempt++ {
 		var drift bool
-		out, drift = runOnce(f, s, old, um, mode, cbFail, cbMode, injects, wantInj, wantIdx, killKind, killIdx)
+		if wantHi < wantIdx {
+			wantHi = wantIdx
+		}
+		out, drift = runOnce(f, s, old, um, mode, cbFail, cbMode, injects, wantInj, wantIdx, wantHi, unlinkErr != "", killKind, killIdx)
 		if !drift {
 			break
 		}
@@ -534,8 +597,8 @@ func (traceArea) Run(line string) string {
 }
 
 // runOnce performs one strace run; drift = the injection did not land on the intended call (retried by the caller).
-func runOnce(f []string, s scenario, old oldSpec, um, mode uint32, cbFail int, cbMode string, injects []string, wantInj string, wantIdx int,
-	killKind string, killIdx int) (string, bool) {
+func runOnce(f []string, s scenario, old oldSpec, um, mode uint32, cbFail int, cbMode string, injects []string, wantInj string, wantIdx, wantHi int,
+	unlinkInj bool, killKind string, killIdx int) (string, bool) {
 	dir, dst := setup(old)
 	defer cleanup(dir)
 	oldState := fileState(dst)
@@ -557,7 +620,8 @@ func runOnce(f []string, s scenario, old oldSpec, um, mode uint32, cbFail int, c
 			continue
 		}
 		idx[c.kind]++
-		if c.inj && !c.dead && (c.kind != wantInj || idx[c.kind] != wantIdx) {
+		if c.inj && !c.dead && !(c.kind == wantInj && idx[c.kind] >= wantIdx && idx[c.kind] <= wantHi) &&
+			!(unlinkInj && c.kind == "unlink" && idx[c.kind] == 1) {
 			note = fmt.Sprintf(" NOTE:injection-hit-%s-%d", c.kind, idx[c.kind])
 		}
 		if c.dead {
@@ -568,7 +632,22 @@ func runOnce(f []string, s scenario, old oldSpec, um, mode uint32, cbFail int, c
 		}
 		seq = append(seq, c.canon)
 	}
-	sq := strings.Join(seq, ";")
+	// a run of collisions is written once, with its length
+	var col []string
+	for i := 0; i < len(seq); {
+		j := i
+		for j < len(seq) && seq[j] == seq[i] && strings.HasPrefix(seq[i], "create tmp* ") {
+			j++
+		}
+		if j > i {
+			col = append(col, fmt.Sprintf("%s x%d", seq[i], j-i))
+			i = j
+		} else {
+			col = append(col, seq[i])
+			i++
+		}
+	}
+	sq := strings.Join(col, ";")
 	if sq == "" {
 		sq = "-"
 	}
